@@ -1,8 +1,11 @@
 #!/bin/bash
-# Build the Lean library (all property theorems) and the native model driver. Offline; nothing fetched.
+# Build the native model driver and the Lean library (all property theorems). Offline; nothing fetched.
+# A proof that no longer builds does not fail the setup: the affected property's check rebuilds its own
+# modules and reports the broken obligation itself.
 set -e
 cd "$(dirname "$(readlink -f "$0")")"
 mkdir -p .work evidence replays
 /venv/bin/python -m translator.all || { echo "translator failed"; exit 1; }
 cd lean
-lake build SpoxModel spoxmodel
+lake build spoxmodel
+lake build SpoxModel || echo "setup: some proof modules do not build against the current /repo; the affected checks will report it"
